@@ -880,6 +880,39 @@ func (r *refactorer) aliasGroupings() {
 	}
 }
 
+// splitSubmodule moves the last data definitions of the submodule into a second submodule that the first one includes
+// (their content is merged after the first one's own, so the order stays): definitions two includes away from the
+// module still see its groupings, typedefs and features.
+func (r *refactorer) splitSubmodule() {
+	if len(r.subs) != 1 {
+		return
+	}
+	sub := r.subs[0]
+	var data []int
+	for i, k := range sub.Kids {
+		if isDataKw(k.Kw) {
+			data = append(data, i)
+		}
+	}
+	if len(data) < 2 || rapid.IntRange(0, 1).Draw(r.t, "second-level-submodule") == 0 {
+		return
+	}
+	from := data[rapid.IntRange(1, len(data)-1).Draw(r.t, "split-at")]
+	// only a tail of data definitions moves; augments and groupings stay where they are
+	for _, k := range sub.Kids[from:] {
+		if !isDataKw(k.Kw) {
+			return
+		}
+	}
+	sub2 := st("submodule", "sub2", st("belongs-to", "main", st("prefix", "m")))
+	sub2.Kids = append(sub2.Kids, sub.Kids[from:]...)
+	sub.Kids = sub.Kids[:from:from]
+	rest := append([]*yst{}, sub.Kids[1:]...)
+	sub.Kids = append(append(sub.Kids[:1:1], st("include", "sub2")), rest...)
+	r.subs = append(r.subs, sub2)
+	r.steps = append(r.steps, "submodule-of-submodule")
+}
+
 // respellAugments writes the steps of module-level augment paths with or without the module's own prefix, step by step.
 func (r *refactorer) respellAugments() {
 	files := append([]*yst{r.mod}, r.subs...)
@@ -1004,6 +1037,7 @@ func c01Gen0(t *rapid.T) c01Case {
 			r.reuseGrouping()
 		}
 	}
+	r.splitSubmodule()
 	r.aliasGroupings()
 	r.respellAugments()
 	files := map[string]string{}
